@@ -746,6 +746,10 @@ func parseTags(text string, basePos Position) []ast.Tag {
 		}
 
 		name := strings.TrimSpace(trimmed[:colonIdx])
+		// a tag name is the word directly before the colon; free text may precede it
+		if i := strings.LastIndexAny(name, " \t"); i >= 0 {
+			name = name[i+1:]
+		}
 		if name == "" || !isValidTagName(name) {
 			continue
 		}
